@@ -27,6 +27,7 @@ fn run(ctx: &Ctx) -> Report {
             closure::decoder_closure(ctx, &mut rep, &mut unit);
             twin::run(ctx, &mut rep, &mut unit);
             prod::many_pieces(ctx, &mut rep, &mut unit);
+            prod::dense_chunks(ctx, &mut rep, &mut unit);
             owning_iovec::verif::drain_quarantine();
             bigblock::run(ctx, &mut rep, &mut unit);
             longrun::run_roundtrip(ctx, &mut rep, &mut unit);
@@ -40,6 +41,7 @@ fn run(ctx: &Ctx) -> Report {
             closure::encoder_closure(ctx, &mut rep, &mut unit);
             twin::run(ctx, &mut rep, &mut unit);
             prod::many_pieces(ctx, &mut rep, &mut unit);
+            prod::dense_chunks(ctx, &mut rep, &mut unit);
             prod::length_sweep(ctx, &mut rep, &mut unit);
         }
         "C07" => {
@@ -52,6 +54,7 @@ fn run(ctx: &Ctx) -> Report {
             closure::decoder_closure(ctx, &mut rep, &mut unit);
             twin::run(ctx, &mut rep, &mut unit);
             prod::many_pieces(ctx, &mut rep, &mut unit);
+            prod::dense_chunks(ctx, &mut rep, &mut unit);
             owning_iovec::verif::drain_quarantine();
             bigblock::run(ctx, &mut rep, &mut unit);
             owning_iovec::verif::set_quarantine(true);
@@ -66,6 +69,8 @@ fn run(ctx: &Ctx) -> Report {
             let t0 = std::time::Instant::now();
             arena_fill::arena_fill_family(ctx, &mut rep, &mut unit);
             rep.count_max("max_stage_ms_arena_fill", t0.elapsed().as_millis() as u64);
+            prod::dense_chunks(ctx, &mut rep, &mut unit);
+            twin::run(ctx, &mut rep, &mut unit);
             owning_iovec::verif::drain_quarantine();
             let t0 = std::time::Instant::now();
             longrun::run(ctx, &mut rep, &mut unit);
